@@ -187,6 +187,76 @@ theorem c15_children_order (st st' : St) (f : Flat) (h : st'.edges.map shape = s
     rfl
   rw [key st'.edges, key st.edges, keyf, h, List.filter_append, List.map_append]
 
+/-- **C15 (exporting the imported tree again walks the file's own tree).** With what `c15_import_stored` establishes
+about the store after the import (one new edge per node in file order; the record and the deletion mark read back for
+every imported node are those of the file), for a store that had no edge below any of the new ids and a file whose
+nodes are not marked deleted: `exportNodesHelper` started at the edge of ANY imported node returns exactly the
+pre-order list that the parent pointers of the file describe from that node down (`rebuild`): the node, then the
+entries of the file naming it as parent, in file order, each with its subtree — same shape, same records, nothing
+from the rest of the store. (For a file that is the pre-order list of its own tree, `rebuild f _ 0 top = f`, this
+is the file itself; the driver checks that fixed point on every exported file, see the example below.) -/
+theorem c15_reexport (isDel : Nat → Bool) (st st' : St) (f : Flat)
+    (hsh : st'.edges.map shape = st.edges.map shape ++ f.map shapeOf)
+    (hrec : ∀ x ∈ f, ∀ e ∈ st'.edges, e.down = x.2.id → recOf st' e = x.2 ∧ edgeTomb st' e = tombX x.2.epts)
+    (hfresh : ∀ x ∈ f, ∀ e ∈ st.edges, e.up ≠ x.2.id)
+    (hlive : ∀ x ∈ f, isDel (tombX x.2.epts) = false) :
+    ∀ (fuel d : Nat), ∀ x ∈ f, ∀ e ∈ st'.edges, e.down = x.2.id →
+      exportFrom isDel st' fuel d e = rebuild f fuel d x.2 := by
+  intro fuel
+  induction fuel with
+  | zero => intro d x _ e _ _; rfl
+  | succ fuel ih =>
+    intro d x hx e he hd
+    simp only [exportFrom, rebuild, (hrec x hx e he hd).1]
+    congr 1
+    -- the live children of the node in the store, in order, are the entries of the file that name it as parent
+    have hkids : (st'.edges.filter (fun c => c.up == e.down)).map shape =
+        (f.filter (fun y => y.2.parent == x.2.id)).map shapeOf := by
+      rw [filter_up_shape, hsh, List.filter_append, hd, filter_parent_shape]
+      have : (st.edges.map shape).filter (fun s => s.1 == x.2.id) = [] := by
+        rw [List.filter_eq_nil_iff]
+        intro s hs
+        simp only [List.mem_map] at hs
+        obtain ⟨e0, he0, rfl⟩ := hs
+        simpa [shape] using hfresh x hx e0 he0
+      rw [this, List.nil_append]
+    -- every edge below an imported node belongs to an imported node, hence is live
+    have hnew : ∀ c ∈ st'.edges, c.up = e.down → ∃ y ∈ f, shape c = shapeOf y := by
+      intro c hc hcu
+      have hm : shape c ∈ st'.edges.map shape := List.mem_map_of_mem (f := shape) hc
+      rw [hsh, List.mem_append] at hm
+      rcases hm with hm | hm
+      · exfalso
+        simp only [List.mem_map] at hm
+        obtain ⟨e0, he0, hs⟩ := hm
+        simp only [shape, Prod.mk.injEq] at hs
+        exact hfresh x hx e0 he0 (hs.1.trans (hcu.trans hd))
+      · simp only [List.mem_map] at hm
+        obtain ⟨y, hy, hs⟩ := hm
+        exact ⟨y, hy, hs.symm⟩
+    have hlv : (Auth.live isDel st').filter (fun c => c.up == e.down) = st'.edges.filter (fun c => c.up == e.down) := by
+      unfold Auth.live
+      rw [List.filter_filter]
+      apply List.filter_congr
+      intro c hc
+      by_cases hcu : c.up = e.down
+      · obtain ⟨y, hy, hs⟩ := hnew c hc hcu
+        simp only [shape, shapeOf, Prod.mk.injEq] at hs
+        have := (hrec y hy c hc hs.2.1).2
+        simp [hcu, this, hlive y hy]
+      · simp [hcu]
+    rw [hlv]
+    apply flatMap_congr_map shape shapeOf _ _ _ _ hkids
+    intro c hc y hy hs
+    simp only [List.mem_filter] at hc hy
+    simp only [shape, shapeOf, Prod.mk.injEq] at hs
+    exact ih (d + 1) y hy.1 c hc.1 hs.2.1
+
+/-- non-vacuity: a file with two levels and siblings is its own traversal -/
+example :
+    let n := fun (id par : Bytes) => ({ id := id, typ := [100], parent := par, pts := [], epts := [] } : NodeRec)
+    SelfRebuilding [(0, n [97] [82]), (1, n [98] [97]), (2, n [100] [98]), (1, n [99] [97])] = true := by decide
+
 /-- non-vacuity of `c15_import_stored`: a two-node file (a point with key "0" written as "", a child) and a store
     with a root node that does not know the two ids -/
 example :
